@@ -256,4 +256,34 @@ if PROP == "C16":
         if f.origin is not None and stackscope.extract_outermost(f.origin).pyframe is not f.pyframe:
             leg.violation("foreign-frame-origin", f"foreign frame {f.funcname} claims origin {type(f.origin).__name__}")
     co.close()
+    # (e) an elaborate_frame hook REDIRECTS to suspended generator-like objects (single item and a sequence of items, replace
+    #     and insert form): the frames found inside each of them have it as origin, and every origin recovers its frame
+    async def job_leaf(): await trap()
+    async def job(): await job_leaf()
+    def gen_job():
+        yield "g"
+    for form in ("single", "tuple", "tuple+next_inner"):
+        j, g = job(), gen_job()
+        j.send(None); next(g)
+        def runner(parked):
+            yield "parked"
+        r = runner((j, g)); next(r)
+        @stackscope.elaborate_frame.register(runner)
+        def _redir(frame, nxt, form=form):
+            jj, gg = frame.pyframe.f_locals["parked"]
+            return jj if form == "single" else ((jj, gg) if form == "tuple" else (jj, gg, nxt))
+        leg.case(("hook-redirect", form), True)
+        st = stackscope.extract(r)
+        want = {"job": j, "job_leaf": None, "gen_job": g} if form != "single" else {"job": j, "job_leaf": None}
+        by = {f.funcname: f for f in st.frames}
+        if st.error is not None or not set(want) <= set(by):
+            leg.violation(("hook-redirect", form), f"frames {[f.funcname for f in st.frames]} error={st.error!r}")
+        else:
+            for nm, o in want.items():
+                if o is not None and by[nm].origin is not o:
+                    leg.violation(("hook-redirect", form), f"frame {nm} reached through a hook redirect has origin {by[nm].origin!r}, expected the suspended {type(o).__name__}")
+            for f in st.frames:
+                if f.origin is not None and stackscope.extract_outermost(f.origin).pyframe is not f.pyframe:
+                    leg.violation(("hook-redirect", form), f"origin of {f.funcname} does not recover it")
+        j.close(); g.close(); r.close()
 leg.finish(exhaustive=True)
